@@ -41,11 +41,18 @@ abbrev NPrices := AMap Rat
 inner commodity in the outer one -/
 abbrev Prices := AMap NPrices
 
+/-- the argument of `Truncate` in `price.Multiply` (tied to the source by `FactsAgree/C12.lean`) -/
+def multiplyPlaces : Nat := 8
+/-- the argument of `Truncate` in `Prices.Insert` -/
+def insertPlaces : Nat := 8
+/-- `normalize` ranges over `dict.SortedKeys(ps[c], commodity.Compare)`, not over the map itself -/
+def sortsNeighbors : Bool := true
+
 /-- `price.Multiply`: `n1.Mul(n2).Truncate(8)` -/
-def multiply (a b : Rat) : Rat := trunc 8 (a * b)
+def multiply (a b : Rat) : Rat := trunc multiplyPlaces (a * b)
 
 /-- the reciprocal stored by `Insert`: `one.Div(price).Truncate(8)` -/
-def recip (p : Rat) : Rat := trunc 8 (div16 1 p)
+def recip (p : Rat) : Rat := trunc insertPlaces (div16 1 p)
 
 /-- `Prices.addPrice`: `dict.GetDefault(ps, target, newNormalizedPrices)[commodity] = price` -/
 def addPrice (ps : Prices) (target commodity : Commodity) (price : Rat) : Prices :=
